@@ -77,7 +77,8 @@ TraceNext ==
      /\ Dummies
      /\ floor' = NextFloor(e)
      /\ IF e.a = "Open" THEN TRUE
-        ELSE /\ Chk(C18_AppendOnly, "P", e, "C18_AppendOnly")
+        ELSE /\ Chk(e.a = "ForeignOp" => C18_ForeignIsolated, "P", e, "C18_ForeignIsolated")
+             /\ Chk(C18_AppendOnly, "P", e, "C18_AppendOnly")
              /\ Chk(C18_ResumeAbove(FloorNow(e)), "P", e, "C18_ResumeAbove")
      /\ Chk(C18_IdContent', "P", e, "C18_IdContent")
      /\ Chk(C18_NoSkip', "P", e, "C18_NoSkip")
